@@ -224,6 +224,17 @@ def decodeGo (C : OnionCrypto) : Nat → List FailKeys → Bytes → FailDecoded
 def decodeFailure (C : OnionCrypto) (keys : List FailKeys) (pkt : Bytes) : FailDecoded :=
   if pkt.length < 32 then .unattributable else decodeGo C 0 keys pkt
 
+/-- the hop a legacy attribution names -/
+def FailDecoded.hop? : FailDecoded → Option Nat
+  | .attributed h _ _ => some h
+  | .unreadable h => some h
+  | .noCode h => some h
+  | .unattributable => none
+
+/-- the sender's view of a path with a blinded tail: `unbl` = `path.hops` (the last one is the introduction node),
+    `bl` = the blinded hops after the introduction node -/
+def pathHops (unbl bl : List FailKeys) : List (Bool × FailKeys) := unbl.map (fun k => (true, k)) ++ bl.map (fun k => (false, k))
+
 /-! ## Attribution data (hold times): hand-written mirrors of the byte-level helpers (Rust text pinned by
    tools/gen_onion_fail.py, behaviour compared byte for byte by the c14 correspondence); the procedures
    that use them are generated (Generated/OnionFail.lean) -/
